@@ -211,6 +211,7 @@ def main(ctx):
     # the framework-free auth jobs (nothing there touches txaio), the asyncio ones get their own pool
     jobs = cj + cra_jobs(tier, seed) + cs_jobs(tier, seed, "tx") + [{"kind": "selftest"}] + sj + \
         totp_jobs(tier, seed)
+    jobs.append({"kind": "scram-reuse"})
     ctx.pmap(ENV, "props.c19:job", jobs, chunksize=1)
     ctx.pmap(ENV, "props.c19:job", cs_jobs(tier, seed, "aio"), chunksize=1)
     c = ctx.counters
@@ -223,6 +224,8 @@ def main(ctx):
         for k in ("cases", "accepted", "rejected", "faults"):
             ctx.require("%s:%s" % (m, k))
     ctx.require("scram-argon2:welcome_accepted")
+    ctx.require("scram_reuse_steps")
+    ctx.require("scram_reuse_stale_rejected")
     ctx.require("scram-argon2:welcome_rejected", 256)
     ctx.require("scram-pbkdf2:cases")
     if c["scram-pbkdf2:on_challenge_raised"] < c["scram-pbkdf2:cases"]:
@@ -300,11 +303,86 @@ def job(a):
     from autobahn.wamp import auth
     assert auth.HAS_ARGON
     try:
-        {"cra": _cra, "totp": _totp, "scram": _scram, "cred": _cred}[kind](o, R, auth, a)
+        {"cra": _cra, "totp": _totp, "scram": _scram, "cred": _cred,
+         "scram-reuse": _scram_reuse}[kind](o, R, auth, a)
     finally:
         auth.os = os
         auth.time = time
     return o.result()
+
+
+def _scram_reuse(o, R, auth, a):
+    """ONE AuthScram instance authenticating several times in a row (an authenticator handed to a
+    Component is reused on every reconnect): all ordered pairs and triples of challenge parameter
+    sets from a small grid (kdf x iterations x memory x salt).  Every proof must verify against the
+    reference credential of ITS challenge, the correct server signature of that exchange must be
+    accepted and the server signature computed with the previous exchange's key must be rejected."""
+    import itertools
+    from autobahn.wamp import types
+    sess = _session()
+    password, authid = "pässw0rd", "joe"
+    salts = [bytes.fromhex("00112233445566778899aabbccddeeff"), bytes.fromhex("ffeeddccbbaa99887766554433221100")]
+    grid = []
+    for kdf in ("pbkdf2", "argon2id-13"):
+        for it in (1, 2):
+            for mem in ((8, 16) if kdf != "pbkdf2" else (None,)):
+                for si in (0, 1):
+                    grid.append((kdf, it, mem, si))
+    seqs = list(itertools.permutations(grid, 2)) + [s_ for s_ in itertools.permutations(grid[::3], 3)]
+    creds = {g: R.scram_credential(g[0], password, salts[g[3]], g[1], g[2]) for g in grid}
+    for seq in seqs:
+        n = [0]
+        auth.os = _NS(urandom=lambda k: (n.__setitem__(0, n[0] + 1), bytes([n[0] & 0xFF]) * k)[1])
+        au = auth.create_authenticator("scram", authid=authid, password=password)
+        prev_key = None
+        for step, g in enumerate(seq):
+            kdf, it, mem, si = g
+            mech = "scram-pbkdf2" if kdf == "pbkdf2" else "scram-argon2"
+            o.evals += 1
+            o.stats["scram_reuse_steps"] += 1
+            o.stats["nontrivial"] += 1
+            what = "authenticator reused: sequence %s, step %d" % ([list(x) for x in seq], step)
+            ra = dict(a)
+            try:
+                cnonce = au.authextra["nonce"]
+                snonce = cnonce + R.b64(bytes([step + 1]) * 16)
+                salt_b64 = R.b64(salts[si])
+                extra = {"nonce": snonce, "kdf": kdf, "salt": salt_b64, "iterations": it}
+                if mem is not None:
+                    extra["memory"] = mem
+                p = au.on_challenge(sess, types.Challenge("scram", dict(extra)))
+                proof = p.decode("ascii") if isinstance(p, bytes) else p
+            except Exception as e:
+                o.bad("C19|%s|reuse|on_challenge|%s" % (mech, _exc(e)), "%s: %r" % (what, e), ra)
+                break
+            am = R.scram_auth_message(R.saslprep(authid), cnonce, snonce, salt_b64, it, None)
+            cred = creds[g]
+            if not R.scram_verify_proof(cred["stored_key"], am, proof):
+                o.bad("C19|%s|reuse|client-proof-rejected-by-reference" % mech,
+                      "%s: proof %s does not verify against the credential of this challenge "
+                      "(kdf=%s iterations=%s memory=%s salt #%d)" % (what, proof, kdf, it, mem, si), ra)
+                break
+            good = R.b64(R.scram_server_signature(cred["server_key"], am))
+            if prev_key is not None and prev_key != cred["server_key"]:
+                stale = R.b64(R.scram_server_signature(prev_key, am))
+                try:
+                    r = au.on_welcome(sess, {"scram_server_signature": stale})
+                except Exception as e:
+                    r = "raised"
+                if r is None:
+                    o.bad("C19|%s|reuse|stale-server-signature-accepted" % mech,
+                          "%s: on_welcome accepted a server signature made with the previous exchange's "
+                          "ServerKey" % what, ra)
+                    break
+                o.stats["scram_reuse_stale_rejected"] += 1
+            try:
+                r = au.on_welcome(sess, {"scram_server_signature": good})
+            except Exception as e:
+                r = "raised %r" % e
+            if r is not None:
+                o.bad("C19|%s|reuse|correct-signature-rejected" % mech, "%s: on_welcome -> %r" % (what, r), ra)
+                break
+            prev_key = cred["server_key"]
 
 
 def replay(a):
